@@ -423,6 +423,13 @@ pub static E2E_ONLY: std::sync::atomic::AtomicBool = std::sync::atomic::AtomicBo
 /// executable for every run. Returns a note for the evidence.
 pub fn seam_probe() -> Option<String> {
     let data: &[u8] = b"!AIVDM,1,1,,A,403OtVAv6s5l1o?I``E`4I?02<34,0*21\nnoise\n";
+    if !cli::HOSTED {
+        E2E_ONLY.store(true, std::sync::atomic::Ordering::Relaxed);
+        return Some(
+            "the tool's source does not compile inside the simulator (it was built without the hosted CLI): all runs of this batch were judged on the real executable over OS pipes (no scripted chunking / EINTR)"
+                .to_string(),
+        );
+    }
     let r = cli::run_cli(data, &[]);
     let inproc_ok = r.panicked.is_none()
         && r.stats.stdin_opened > 0
